@@ -302,7 +302,7 @@ pub fn run(kv: &Args) -> i32 {
     let seed = kv.u64("seed", 1);
     let out = kv.str("out", "/verif/build/run/C05");
     std::fs::create_dir_all(&out).unwrap();
-    let n_cases = kv.u64("cases", if kv.thorough() { 104 } else { 6 }) as usize;
+    let n_cases = kv.u64("cases", if kv.thorough() { 104 } else { 10 }) as usize;
     let mut cx = Ctx {
         drv: Driver::spawn(),
         seed,
@@ -323,7 +323,7 @@ pub fn run(kv: &Args) -> i32 {
         let mut sid = vec![0u8; len];
         r.fill_bytes(&mut sid);
         // the other session id: same length & random / one bit flipped / one byte appended / last byte dropped
-        let sid2: Vec<u8> = match (case / 4) % 4 {
+        let sid2: Vec<u8> = match (case / 4 + case % 4) % 4 {
             0 if len > 0 => loop {
                 let mut s = vec![0u8; len];
                 r.fill_bytes(&mut s);
